@@ -47,7 +47,7 @@ var lockStates = []string{"sync.RWMutex.Lock", "sync.RWMutex.RLock", "sync.Mutex
 // pieces with fully observable inputs/outputs (usable by the linearizability oracle).
 var (
 	linKinds = []string{"get", "getByUUID", "exist", "count", "all", "assignAll", "assignIndex", "searchLen", "insert", "update", "delete", "many", "schema", "control"}
-	allKinds = append(append([]string{}, linKinds...), "searchCollect", "searchChain", "searchOne", "searchDelete", "deleteAll", "flushAll", "flushAllCommit", "commit", "createAgain", "bulk", "iterCount", "repair", "otherCount", "otherInsert", "otherAll", "otherSearch")
+	allKinds = append(append([]string{}, linKinds...), "searchCollect", "searchChain", "searchOne", "searchDelete", "deleteAll", "flushAll", "flushAllCommit", "commit", "createAgain", "bulk", "iterCount", "repair", "otherCount", "otherInsert", "otherAll", "otherSearch", "asyncOff", "asyncOn", "cacheToggle")
 )
 
 func (g *G) COp(kinds []string) COp {
@@ -259,6 +259,18 @@ func runWorker(db *sod.DB, e *Env, w int, ops []COp, known []string, base map[st
 			call(func() { ev.Class = classify(db.Create(&Doc{}, e.cfg.Schema())) })
 		case "repair":
 			call(func() { ev.Class = classify(db.Repair(&Doc{})) })
+		// settings switches through Create on the live handle
+		case "asyncOff", "asyncOn", "cacheToggle":
+			nc := e.cfg
+			switch op.Kind {
+			case "asyncOff":
+				nc.Async = nil
+			case "asyncOn":
+				nc.Async = &AsyncCfg{Threshold: 1 + op.Ref%4, TimeoutMs: 100 * (1 + op.Ref%3)}
+			default:
+				nc.Cache = op.Ref%2 == 0
+			}
+			call(func() { ev.Class = classify(db.Create(&Doc{}, nc.Schema())) })
 		// a second collection on the same handle (its schema may be loaded for the
 		// first time while other goroutines use the first collection)
 		case "otherCount":
